@@ -298,7 +298,11 @@ def sample_n_inputs_pipeline(ctx, res: Result, fi: FuncInfo) -> None:
     # herald test loop
     hl = [l for l in lp.body if isinstance(l, ast.For) and "herald" in src(l.iter)]
     if not hl:
-        res.bad("I-pipeline-order", inst + ":herald-test", fi.site(lp), fi.qualname, "no herald test in the per-sample pipeline", construct=src(lp)[:120])
+        mentions = [st_ for st_ in lp.body if "herald" in src(st_)]
+        if mentions:
+            res.frozen(False, "I-pipeline-order", inst + ":herald-test", fi.site(mentions[0]), fi.qualname, "", "herald test is not in the recognised for/else form (state-space rules B1/B3/B4/B5 still apply)", construct=src(mentions[0])[:120])
+        else:
+            res.bad("I-pipeline-order", inst + ":herald-test", fi.site(lp), fi.qualname, "no herald test in the per-sample pipeline", construct=src(lp)[:120])
         return
     h = hl[0]
     tests = [n for n in ast.walk(h) if isinstance(n, ast.Compare) and isinstance(n.left, ast.Subscript)]
@@ -362,8 +366,8 @@ def sample_n_outputs_pipeline(ctx, res: Result, fi: FuncInfo) -> None:
             res.frozen(False, "I-pipeline-order", inst + ":threshold-first", fi.site(first), fi.qualname, "", "threshold-detection step not recognised", construct=src(first)[:160])
     hl = [l for l in lp.body if isinstance(l, ast.For) and "herald" in src(l.iter)]
     if not hl:
-        if any("herald" in src(st_) and any(isinstance(x, ast.Compare) for x in ast.walk(st_)) for st_ in lp.body):
-            res.frozen(False, "I-pipeline-order", inst + ":herald-test", fi.site(lp), fi.qualname, "", "herald test is not in the recognised loop form", construct=src(lp)[:100])
+        if any("herald" in src(st_) for st_ in lp.body):
+            res.frozen(False, "I-pipeline-order", inst + ":herald-test", fi.site(lp), fi.qualname, "", "herald test is not in the recognised loop form (state-space rules B1/B3/B4/B5 still apply)", construct=src(lp)[:100])
         else:
             res.bad("I-pipeline-order", inst + ":herald-test", fi.site(lp), fi.qualname, "no herald test when converting the distribution", construct=src(lp)[:100])
         return
